@@ -11,7 +11,7 @@ from framework import Unit
 IMPORTS = ('From ArmV Require Import Spec.Pseudocode Spec.Arch.\n'
            'From Gen Require Import enums exec.')
 SPEC_IMPORTS = 'From ArmV Require Import Spec.Pseudocode Spec.Arch Spec.MachineView Spec.DPSem.'
-PROPS_FILES = ['C01', 'C01_0', 'C01_1', 'C01_2', 'C01_3', 'C01misc', 'C01step']
+PROPS_FILES = ['C01', 'C01_0', 'C01_1', 'C01_2', 'C01_3', 'C01misc', 'C01step', 'C01step2']
 TABLE = json.load(open(os.path.join(C.VERIF, 'tools', 'spec', 'dp_table.json')))['classes']
 CORN = [0, 1, 0x7FFFFFFF, 0x80000000, 0xFFFFFFFF, 0xFFFFFFFE, 0x80000001, 0x12345678, 0xC0000000]
 
@@ -215,10 +215,21 @@ def units():
                                                     'tstImmediateT1', 'teqImmediateT1', 'cmnImmediateT1', 'cmpImmediateT2',
                                                     'tstRegisterShiftedRegisterA1', 'teqRegisterShiftedRegisterA1',
                                                     'cmpRegisterShiftedRegisterA1', 'cmnRegisterShiftedRegisterA1',
-                                                    'movRegisterArmA1', 'rrxA1', 'lslImmediateT1', 'lsrImmediateT1', 'asrImmediateT1')] +
+                                                    'movRegisterArmA1', 'rrxA1', 'lslImmediateT1', 'lsrImmediateT1', 'asrImmediateT1',
+                                                    'mvnRegisterA1', 'mvnRegisterShiftedRegisterA1', 'lslRegisterA1', 'lsrRegisterA1',
+                                                    'asrRegisterA1', 'rorRegisterA1', 'lslRegisterT1', 'lsrRegisterT1', 'asrRegisterT1',
+                                                    'rorRegisterT1', 'mvnRegisterT1', 'rsbImmediateT1', 'movImmediateT2', 'mvnImmediateT1',
+                                                    'mvnRegisterT2', 'movRegisterThumbT3', 'rrxT1', 'lslImmediateT2', 'lsrImmediateT2', 'asrImmediateT2',
+                                                    'rorImmediateT1', 'lslRegisterT2', 'lsrRegisterT2', 'asrRegisterT2', 'rorRegisterT2',
+                                                    'tstRegisterT2', 'teqRegisterT1', 'cmnRegisterT2', 'cmpRegisterT3', 'addRegisterThumbT1', 'subRegisterT1',
+                                                    'addImmediateThumbT4', 'subImmediateThumbT4', 'movImmediateT3',
+                                                    'addRegisterThumbT2', 'movRegisterThumbT1', 'cmpRegisterT2',
+                                                    'addSpPlusImmediateA1', 'subSpMinusImmediateA1', 'addSpPlusRegisterArmA1', 'subSpMinusRegisterA1', 'movImmediateA2',
+                                                    'addSpPlusImmediateT3', 'subSpMinusImmediateT2', 'addSpPlusImmediateT4', 'subSpMinusImmediateT3', 'addSpPlusRegisterThumbT3', 'subSpMinusRegisterT1',
+                                                    'addSpPlusImmediateT1', 'addSpPlusImmediateT2', 'subSpMinusImmediateT1', 'addSpPlusRegisterThumbT1', 'addSpPlusRegisterThumbT2', 'movRegisterThumbT2')] +
                    ['C01_dp_step', 'C01_dp_cmp_step', 'C01_add_imm_a1_closed', 'C01_add_imm_t1_closed', 'C01_and_imm_t1_closed'],
                    ['Proofs/StepProofs.v', 'Proofs/StepDP.v', 'Proofs/StepInstances.v', 'Proofs/StepInstancesArm.v',
-                    'Proofs/StepInstancesThumb.v', 'Proofs/StepDPReg.v', 'Proofs/StepInstancesArmReg.v', 'Proofs/StepInstancesCmp.v', 'Proofs/StepInstancesArmRsr.v', 'Proofs/StepInstancesThumbReg.v', 'Proofs/StepInstancesMov.v', 'Proofs/StepInstancesThumb2.v', 'Proofs/StepInstancesShift.v', 'Proofs/StepInstancesThumb2Reg.v', 'Proofs/StepInstancesCmpReg.v', 'Proofs/StepInstancesCmpT2.v', 'Proofs/StepInstancesCmpRsr.v', 'Proofs/StepInstancesMovReg.v', 'Proofs/StepInstancesShiftT16.v', 'Proofs/StepFetch.v', 'Proofs/StepClosed.v',
+                    'Proofs/StepInstancesThumb.v', 'Proofs/StepDPReg.v', 'Proofs/StepInstancesArmReg.v', 'Proofs/StepInstancesCmp.v', 'Proofs/StepInstancesArmRsr.v', 'Proofs/StepInstancesThumbReg.v', 'Proofs/StepInstancesMov.v', 'Proofs/StepInstancesThumb2.v', 'Proofs/StepInstancesShift.v', 'Proofs/StepInstancesThumb2Reg.v', 'Proofs/StepInstancesCmpReg.v', 'Proofs/StepInstancesCmpT2.v', 'Proofs/StepInstancesCmpRsr.v', 'Proofs/StepInstancesMovReg.v', 'Proofs/StepInstancesShiftT16.v', 'Proofs/StepInstancesMvn.v', 'Proofs/StepInstancesThumbReg2.v', 'Proofs/StepInstancesMovT2.v', 'Proofs/StepInstancesMvnT2.v', 'Proofs/StepInstancesShiftT2.v', 'Proofs/StepInstancesShiftRegT2.v', 'Proofs/StepInstancesCmpRegT2.v', 'Proofs/StepInstancesAddRegT1.v', 'Proofs/StepInstancesPlainImm.v', 'Proofs/StepInstancesSpecialT16.v', 'Proofs/StepInstancesSpArm.v', 'Proofs/StepInstancesSpThumb2.v', 'Proofs/StepInstancesSpT16.v', 'Proofs/StepFetch.v', 'Proofs/StepClosed.v',
                     'Proofs/DPRange.v', 'Proofs/StepInstancesExample.v'],
                    ['arm_v6.ArmV6.emulate_cycle', 'arm_v6.ArmV6.execute_instruction', 'arm_v6.ArmV6.increment_pc_if_needed'], None,
                    IMPORTS, SPEC_IMPORTS))
